@@ -14,6 +14,8 @@ mod e1_store;
 mod e2;
 #[cfg(not(feature = "stateless"))]
 mod e2gen;
+#[cfg(feature = "pm")]
+mod e3;
 #[cfg(not(feature = "stateless"))]
 mod proto;
 
@@ -196,6 +198,8 @@ fn batch(args: &Args) -> i32 {
                         "e1store" => run_e1store(args, run_seed, known, &dir, &mut local, want_logs),
                         #[cfg(not(feature = "stateless"))]
                         "e2" => run_e2(args, prop, run_seed, known, &mut local, want_logs),
+                        #[cfg(feature = "pm")]
+                        "e3" => run_e3(args, run_seed, &mut local, want_logs),
                         _ => {
                             local.harness_errors.push(format!("unknown engine {engine}"));
                             break;
@@ -420,6 +424,46 @@ fn run_e2(args: &Args, prop: &str, run_seed: u64, known: &HashSet<String>, local
     }
 }
 
+#[cfg(feature = "pm")]
+fn run_e3(args: &Args, run_seed: u64, local: &mut Agg, want_logs: bool) {
+    let thorough = args.get("tier") == Some("thorough");
+    let trace = e3::generate(run_seed, thorough);
+    let mut ctx = e3::Ctx { counters: util::Counters::default(), log: util::Fnv::new() };
+    let out = e3::run_trace(&trace, &mut ctx);
+    local.runs += 1;
+    local.steps += trace.steps.len() as u64;
+    local.counters.merge(&ctx.counters);
+    let d = trace.digest();
+    local.traces.insert(d);
+    if ctx.counters.0.get("oracle_evaluations").copied().unwrap_or(0) >= 3 {
+        local.nontrivial.insert(d);
+    }
+    if want_logs {
+        local.logs.push((run_seed, ctx.log.0));
+    }
+    if local.samples.len() < 1 {
+        let mut t = trace.clone();
+        t.steps.truncate(8);
+        local.samples.push(t.to_json());
+    }
+    if let Some(e) = out.harness_error {
+        local.harness_errors.push(format!("seed {run_seed}: {e}"));
+    }
+    if let Some(v) = out.violation {
+        let (min, used) = e3::shrink(&trace, &v.class(), args.u64("shrink-budget", 80) as usize);
+        let mut c2 = e3::Ctx { counters: util::Counters::default(), log: util::Fnv::new() };
+        let v2 = e3::run_trace(&min, &mut c2).violation.unwrap_or(v.clone());
+        local.violations.push(json!({
+            "violation": v2.to_json(),
+            "original_violation": v.to_json(),
+            "trace": min.to_json(),
+            "original_steps": trace.steps.len(),
+            "shrink_runs": used,
+            "seed": run_seed.to_string(),
+        }));
+    }
+}
+
 fn run_one(args: &Args) -> i32 {
     let path = match args.get("trace") {
         Some(p) => p,
@@ -456,6 +500,18 @@ fn run_one(args: &Args) -> i32 {
             t.prop = prop.clone();
             let mut ctx = e2::Ctx::new(&prop, &known);
             let out = e2::run_trace(&t, &mut ctx);
+            json!({
+                "violation": out.violation.map(|v| v.to_json()),
+                "harness_error": out.harness_error,
+                "log": ctx.log.0.to_string(),
+                "counters": ctx.counters.to_json(),
+            })
+        }
+        #[cfg(feature = "pm")]
+        "e3" => {
+            let t = e3::Trace::from_json(&tv).expect("e3 trace");
+            let mut ctx = e3::Ctx { counters: util::Counters::default(), log: util::Fnv::new() };
+            let out = e3::run_trace(&t, &mut ctx);
             json!({
                 "violation": out.violation.map(|v| v.to_json()),
                 "harness_error": out.harness_error,
